@@ -718,7 +718,7 @@ func signatureOf(opName, how string) string { return "accepted:" + opName + ":" 
 
 func runCase(t *rapid.T) {
 	nVal := rapid.IntRange(1, 5).Draw(t, "validators")
-	cfg := node.Config{Genesis: node.EqualGenesis(nVal), BatchSize: rapid.IntRange(nVal, nVal+2).Draw(t, "batch"), KeepEvents: rapid.SampledFrom([]int{-1, 2, 300}).Draw(t, "keepEvents")}
+	cfg := node.Config{Genesis: node.EqualGenesis(nVal), BatchSize: rapid.IntRange(nVal, nVal+2).Draw(t, "batch"), KeepEvents: rapid.SampledFrom([]int{-1, 2, 300, node.KeepEventsNone}).Draw(t, "keepEvents")}
 	n, err := node.New(cfg)
 	if err != nil {
 		t.Fatalf("new node: %v", err)
